@@ -6,6 +6,7 @@ package sam
 // Mapping of API functions to clauses:
 //   func (Flag) Multiple..Supplementary, (*Flag) SetMultiple..SetSupplementary -> C03/flags
 //   func (*SAM) Write, (*SAM) MarshalText, sam.Reader, sam.ReaderHeader          -> C03/record-roundtrip, C03/file
+//   func (*SAM) MarshalText x n, then (*SAM) Write x n, sam.Reader, sam.ReaderHeader -> C03/marshal-list {records}
 //   func sam.Reader, sam.ReaderHeader (read schedules)                           -> C06/chunking, C06/crlf
 //   func sam.File, sam.FileHeader                                                -> C06/file
 //   func sam.Reader, sam.ReaderHeader (failing io.Reader)                        -> C07/read-fault
@@ -18,13 +19,18 @@ package sam
 //   {"qname":[..],"flag":n,"rname":[..],"pos":n,"mapq":n,"cigar":[..],"rnext":[..],
 //    "pnext":n,"tlen":n,"seq":[..],"qual":[..],"tags":[{"name":[..],"type":"A|i|f|Z|H","value":..}]}
 // tag value: A -> byte code, i -> int, f -> float, Z -> byte string, H -> byte string.
+// Compact form of a long byte string (accepted for the text fields, Z tag values
+// and header lines): {"pat":[..],"len":n} = pat repeated and cut to n bytes.
 //
 // Signatures: "sam:dquote-in-field" (a '"' in a text field / tag / header is
 // needed for the failure: the same case with every '"' replaced by 'q' passes),
 // "sam:io-error-swallowed" (C07/read-fault: no error reported / unbounded
 // iteration / truncated record delivered under an injected read fault),
 // "sam:A-tag-byte-ge-0x80" (C11/total: accepted record with an A tag >= 0x80 is
-// not a fixed point), "generic" otherwise.
+// not a fixed point), "sam:line-longer-than-4095" / "sam:line-longer-than-65535"
+// (C03: the failure needs a line of that length: the same case with every long
+// string cut to 256 bytes passes; the second one if it also passes with the
+// strings cut to 16000 bytes), "generic" otherwise.
 
 import (
 	"bytes"
@@ -51,13 +57,17 @@ var vsClauses = []vrClause{
 		Rule:  "getter k == bit k of the SAM spec table; setter k changes exactly bit k",
 		Gen:   vsGenFlags, Run: vsRunFlags},
 	{Prop: "C03", Name: "record-roundtrip",
-		Bound: "systematic: each of the 6 text fields and a Z tag value over all words of length <=2 over {dquote,space,0x01,0x7f,0x80,0xff,a,@,:}, each int field over extreme values, each tag type over its value pool; then random records (0..8 tags, odd tag names) until the time budget",
+		Bound: "systematic: each of the 6 text fields and a Z tag value over all words of length <=2 over {dquote,space,0x01,0x7f,0x80,0xff,a,@,:}, each int field over extreme values, each tag type over its value pool; long lines (SEQ/QUAL, a Z tag, QNAME of 4000, 4096, 5000, 70000, 200000 bytes); then random records (0..8 tags, odd tag names) until the time budget",
 		Rule:  "Write ok; MarshalText == Write bytes; one line; tags sorted; Reader/ReaderHeader give back exactly the record",
 		Gen:   vsGenRoundtrip, Run: vsRunRoundtrip},
 	{Prop: "C03", Name: "file",
-		Bound: "random files of 0..4 header lines followed by 0..5 records (alphabet with dquote, TABs in headers) until the time budget",
+		Bound: "fixed files (every pooled header alone and before a record; empty record between records); long lines: a record with SEQ/QUAL or a Z tag of 4000, 4096, 5000, 70000, 200000 bytes alone, twice, and between ordinary lines, a header line of 5000 / 70000 bytes alone, between headers and before a long record; then random files of 0..4 header lines followed by 0..5 records (alphabet with dquote, TABs in headers) until the time budget",
 		Rule:  "ReaderHeader: one item per line in order, headers verbatim; Reader: exactly the records",
 		Gen:   vsGenFile, Run: vsRunFile},
+	{Prop: "C03", Name: "marshal-list",
+		Bound: "exhaustive: all ordered pairs of a pool of 14 records of pairwise different written lengths (no tags / every tag type / empty and long text fields / extreme ints); the pool in increasing and decreasing length order (windows of 6); then random lists of 2..6 random records of pairwise different written lengths until the time budget",
+		Rule:  "MarshalText is called on every record of the list first and the returned slices are kept untouched; afterwards each kept slice == the bytes Write of that record puts into a fresh buffer (not clobbered by later MarshalText/Write calls); Reader/ReaderHeader over the kept slices joined give back exactly the records in order; Write of all records into one shared buffer emits the concatenation of those bytes and reads back as the same list",
+		Gen:   vsGenMarshalList, Run: vsRunMarshalList},
 	{Prop: "C06", Name: "chunking",
 		Bound: "random well-formed / near-valid / random inputs x {every 2-chunk split, uniform chunk sizes 1..8, random schedules} x eof_with_data",
 		Rule:  "items of Reader/ReaderHeader on the chunked stream == items on bytes.Reader",
@@ -200,6 +210,46 @@ func vsAnyStr(v any) string {
 	return vrStr(v)
 }
 
+// vsStr decodes a byte string: the usual forms of vrStr, or the compact form
+// {"pat":[bytes],"len":n} (pat repeated and cut to n bytes).
+func vsStr(v any) string {
+	m, ok := v.(map[string]any)
+	if !ok {
+		return vrStr(v)
+	}
+	pat, n := vrBytes(m["pat"]), vrInt(m["len"])
+	if n < 0 || (n > 0 && len(pat) == 0) || n > 1<<26 {
+		panic("harness: bad compact string")
+	}
+	b := make([]byte, n)
+	for i := range b {
+		b[i] = pat[i%len(pat)]
+	}
+	return string(b)
+}
+
+// vsS encodes a byte string; strings of 512 bytes or more that are a repeated
+// pattern of at most 16 bytes get the compact form, so that case files stay small.
+func vsS(x string) any {
+	if len(x) >= 512 {
+	next:
+		for p := 1; p <= 16; p++ {
+			for i := p; i < len(x); i++ {
+				if x[i] != x[i-p] {
+					continue next
+				}
+			}
+			return map[string]any{"pat": vrS(x[:p]), "len": len(x)}
+		}
+	}
+	return vrS(x)
+}
+
+// vsRep returns pat repeated and cut to n bytes.
+func vsRep(pat string, n int) string {
+	return vsStr(map[string]any{"pat": pat, "len": n})
+}
+
 func vsEncInt(v int) any {
 	if v > 1<<53 || v < -(1<<53) {
 		return strconv.Itoa(v)
@@ -229,7 +279,7 @@ func vsEncRec(s *SAM) map[string]any {
 		case float64:
 			typ, val = "f", vrF(v)
 		case string:
-			typ, val = "Z", vrS(v)
+			typ, val = "Z", vsS(v)
 		case []byte:
 			typ, val = "H", vrB(v)
 		default:
@@ -238,9 +288,9 @@ func vsEncRec(s *SAM) map[string]any {
 		tags = append(tags, map[string]any{"name": vrS(n), "type": typ, "value": val})
 	}
 	return map[string]any{
-		"qname": vrS(s.Qname), "flag": vsEncInt(int(s.Flag)), "rname": vrS(s.Rname),
-		"pos": vsEncInt(s.Pos), "mapq": vsEncInt(s.Mapq), "cigar": vrS(s.Cigar), "rnext": vrS(s.Rnext),
-		"pnext": vsEncInt(s.Pnext), "tlen": vsEncInt(s.Tlen), "seq": vrS(s.Seq), "qual": vrS(s.Qual),
+		"qname": vsS(s.Qname), "flag": vsEncInt(int(s.Flag)), "rname": vsS(s.Rname),
+		"pos": vsEncInt(s.Pos), "mapq": vsEncInt(s.Mapq), "cigar": vsS(s.Cigar), "rnext": vsS(s.Rnext),
+		"pnext": vsEncInt(s.Pnext), "tlen": vsEncInt(s.Tlen), "seq": vsS(s.Seq), "qual": vsS(s.Qual),
 		"tags": tags,
 	}
 }
@@ -248,9 +298,9 @@ func vsEncRec(s *SAM) map[string]any {
 func vsDecRec(v any) *SAM {
 	m := vrMap(v)
 	s := &SAM{
-		Qname: vrStr(m["qname"]), Flag: Flag(vrInt(m["flag"])), Rname: vrStr(m["rname"]),
-		Pos: vrInt(m["pos"]), Mapq: vrInt(m["mapq"]), Cigar: vrStr(m["cigar"]), Rnext: vrStr(m["rnext"]),
-		Pnext: vrInt(m["pnext"]), Tlen: vrInt(m["tlen"]), Seq: vrStr(m["seq"]), Qual: vrStr(m["qual"]),
+		Qname: vsStr(m["qname"]), Flag: Flag(vrInt(m["flag"])), Rname: vsStr(m["rname"]),
+		Pos: vrInt(m["pos"]), Mapq: vrInt(m["mapq"]), Cigar: vsStr(m["cigar"]), Rnext: vsStr(m["rnext"]),
+		Pnext: vrInt(m["pnext"]), Tlen: vrInt(m["tlen"]), Seq: vsStr(m["seq"]), Qual: vsStr(m["qual"]),
 		Tags: map[string]any{},
 	}
 	for _, t := range vrList(m["tags"]) {
@@ -264,7 +314,7 @@ func vsDecRec(v any) *SAM {
 		case "f":
 			s.Tags[name] = vrFloat(tm["value"])
 		case "Z":
-			s.Tags[name] = vrStr(tm["value"])
+			s.Tags[name] = vsStr(tm["value"])
 		case "H":
 			b := vrBytes(tm["value"])
 			if b == nil {
@@ -288,7 +338,7 @@ func vsEncLines(lines []vsLine) []any {
 	r := make([]any, len(lines))
 	for i, l := range lines {
 		if l.H != nil {
-			r[i] = map[string]any{"header": vrS(*l.H)}
+			r[i] = map[string]any{"header": vsS(*l.H)}
 		} else {
 			r[i] = map[string]any{"record": vsEncRec(l.S)}
 		}
@@ -301,7 +351,7 @@ func vsDecLines(v any) []vsLine {
 	for _, e := range vrList(v) {
 		m := vrMap(e)
 		if h, ok := m["header"]; ok {
-			s := vrStr(h)
+			s := vsStr(h)
 			r = append(r, vsLine{H: &s})
 		} else {
 			r = append(r, vsLine{S: vsDecRec(m["record"])})
@@ -399,6 +449,71 @@ func vsDequote(s *SAM) *SAM {
 		c.Tags[rq(n)] = v
 	}
 	return &c
+}
+
+// vsCut returns a copy of s with every text field and Z tag value longer than
+// n bytes cut to n bytes (changed reports whether anything was cut).
+func vsCut(s *SAM, n int) (c *SAM, changed bool) {
+	cut := func(x string) string {
+		if len(x) > n {
+			changed = true
+			return x[:n]
+		}
+		return x
+	}
+	cp := *s
+	for _, p := range vsTextFields(&cp) {
+		*p = cut(*p)
+	}
+	cp.Tags = map[string]any{}
+	for n, v := range s.Tags {
+		if x, ok := v.(string); ok {
+			v = cut(x)
+		}
+		cp.Tags[n] = v
+	}
+	return &cp, changed
+}
+
+// vsCutLines is vsCut on every record, and the same cut on every header line.
+func vsCutLines(lines []vsLine, n int) (r []vsLine, changed bool) {
+	r = make([]vsLine, len(lines))
+	for i, l := range lines {
+		if l.H != nil {
+			h := *l.H
+			if len(h) > n {
+				h, changed = h[:n], true
+			}
+			r[i] = vsLine{H: &h}
+			continue
+		}
+		c, ch := vsCut(l.S, n)
+		r[i] = vsLine{S: c}
+		changed = changed || ch
+	}
+	return r, changed
+}
+
+// vsLongLineSig classifies a failure of lines: if some rendered line has 4096
+// bytes or more and the same case with every long string cut to 256 bytes
+// passes, the failure needs the long line ("" otherwise). check evaluates the
+// clause's oracle.
+func vsLongLineSig(lines []vsLine, check func([]vsLine) bool) string {
+	long := false
+	for _, ln := range bytes.Split(vsRenderLines(lines), []byte{'\n'}) {
+		long = long || len(ln) >= 4096
+	}
+	if !long {
+		return ""
+	}
+	short, changed := vsCutLines(lines, 256)
+	if !changed || !check(short) {
+		return ""
+	}
+	if mid, ch := vsCutLines(lines, 16000); ch && check(mid) {
+		return "sam:line-longer-than-65535"
+	}
+	return "sam:line-longer-than-4095"
 }
 
 func vsValDiff(a, b any) bool {
@@ -841,11 +956,27 @@ func vsGenRoundtrip(g *vrGen) {
 		s.Tags = map[string]any{n: 5, "NM": "x"}
 		emit(s)
 	}
+	// long lines: SEQ/QUAL, a Z tag, QNAME of 4000..200000 bytes
+	for _, n := range vsLongLens {
+		s := vsBaseRec()
+		s.Seq, s.Qual = vsRep("ACGT", n), vsRep("I#5?F", n)
+		emit(s)
+		s = vsBaseRec()
+		s.Tags["ZZ"] = vsRep("long tag ", n)
+		emit(s)
+		s = vsBaseRec()
+		s.Qname = vsRep("q", n)
+		emit(s)
+	}
 	max := vsMaxCases(g, 30000, 150000)
 	for i := 0; i < max && !g.Expired(); i++ {
 		emit(vsRandRec(g.Rand, g.Rand.Intn(3) == 0))
 	}
 }
+
+// vsLongLens: lengths of the long SEQ/QUAL, Z tag and header strings (around
+// the 4096-byte bufio buffer and beyond the 65536-byte bufio.Scanner token limit).
+var vsLongLens = []int{4000, 4096, 5000, 70000, 200000}
 
 // vsCheckRoundtrip evaluates the round-trip oracle on one in-domain record.
 func vsCheckRoundtrip(s *SAM) (ok bool, obs, exp string) {
@@ -915,6 +1046,11 @@ func vsRunRoundtrip(in map[string]any) vrResult {
 			sig = "sam:dquote-in-field"
 		}
 	}
+	if sig == "generic" {
+		if ls := vsLongLineSig([]vsLine{{S: s}}, func(l []vsLine) bool { ok, _, _ := vsCheckRoundtrip(l[0].S); return ok }); ls != "" {
+			sig = ls
+		}
+	}
 	return vrResult{Observed: obs, Expected: exp, Signature: sig}
 }
 
@@ -930,6 +1066,27 @@ func vsGenFile(g *vrGen) {
 		emit([]vsLine{{H: &h}, {S: vsBaseRec()}})
 	}
 	emit([]vsLine{{S: vsBaseRec()}, {S: &SAM{}}, {S: vsBaseRec()}})
+	// long lines: SEQ/QUAL or a Z tag of 4000..200000 bytes between ordinary
+	// lines; a header line of 5000 / 70000 bytes
+	hd := vsHeaderPool[0]
+	for _, n := range vsLongLens {
+		long := vsBaseRec()
+		long.Seq, long.Qual = vsRep("ACGT", n), vsRep("I#5?F", n)
+		emit([]vsLine{{S: long}})
+		emit([]vsLine{{H: &hd}, {S: vsBaseRec()}, {S: long}, {S: vsBaseRec()}})
+		emit([]vsLine{{S: long}, {S: long}})
+		tag := vsBaseRec()
+		tag.Tags["ZZ"] = vsRep("long tag ", n)
+		emit([]vsLine{{H: &hd}, {S: tag}, {S: vsBaseRec()}})
+	}
+	for _, n := range []int{5000, 70000} {
+		lh := "@CO\t" + vsRep("long comment ", n-4)
+		emit([]vsLine{{H: &lh}})
+		emit([]vsLine{{H: &hd}, {H: &lh}, {H: &hd}, {S: vsBaseRec()}})
+		long := vsBaseRec()
+		long.Seq, long.Qual = vsRep("ACGT", n), vsRep("I#5?F", n)
+		emit([]vsLine{{H: &lh}, {S: long}, {S: vsBaseRec()}})
+	}
 	max := vsMaxCases(g, 20000, 100000)
 	for i := 0; i < max && !g.Expired(); i++ {
 		emit(vsRandLines(g.Rand, g.Rand.Intn(3) == 0, 4, 5))
@@ -1027,7 +1184,213 @@ func vsRunFile(in map[string]any) vrResult {
 			sig = "sam:dquote-in-field"
 		}
 	}
+	if sig == "generic" {
+		if ls := vsLongLineSig(lines, func(l []vsLine) bool { ok, _, _ := vsCheckFile(l); return ok }); ls != "" {
+			sig = ls
+		}
+	}
 	return vrResult{Observed: obs, Expected: exp, Signature: sig}
+}
+
+// ---------------------------------------------------------------------------
+// C03/marshal-list
+
+// vsCheckMarshalList evaluates the oracle on a list of in-domain records.
+func vsCheckMarshalList(recs []*SAM) (ok bool, obs, exp string) {
+	// 1. every MarshalText call first; the results are kept as returned (not
+	// copied, not touched between the calls).
+	kept := make([][]byte, len(recs))
+	for i, s := range recs {
+		var merr error
+		if p := vrCatch(func() { kept[i], merr = s.MarshalText() }); p != nil {
+			return false, fmt.Sprintf("record %d: MarshalText panics: %v", i, p), "no panic"
+		}
+		if merr != nil {
+			return false, fmt.Sprintf("record %d: MarshalText error: %v", i, merr), "nil error"
+		}
+	}
+	// 2. only now the reference bytes: Write of each record into a fresh buffer
+	// (all of them before the first comparison).
+	refs := make([][]byte, len(recs))
+	for i, s := range recs {
+		var buf bytes.Buffer
+		var werr error
+		if p := vrCatch(func() { werr = s.Write(&buf) }); p != nil {
+			return false, fmt.Sprintf("record %d: Write panics: %v", i, p), "no panic"
+		}
+		if werr != nil {
+			return false, fmt.Sprintf("record %d: Write error: %v", i, werr), "nil error"
+		}
+		refs[i] = buf.Bytes()
+	}
+	for i := range recs {
+		if !bytes.Equal(kept[i], refs[i]) {
+			return false, fmt.Sprintf("record %d of %d: the slice MarshalText returned holds %q after the later calls", i, len(recs), kept[i]),
+				fmt.Sprintf("the bytes of Write: %q (a MarshalText result is not changed by later MarshalText/Write calls)", refs[i])
+		}
+	}
+	want := make([]vsItem, len(recs))
+	for i, s := range recs {
+		want[i] = vsItem{S: s}
+	}
+	readBack := func(what string, data []byte) (bool, string, string) {
+		for _, api := range []string{"Reader", "ReaderHeader"} {
+			items, _, capped, p := vsCollect(api, bytes.NewReader(data), "", 0, len(data)+20)
+			exp := fmt.Sprintf("%s(%q): %s", api, data, vsItemsDesc(want))
+			if p != nil {
+				return false, fmt.Sprintf("%s: %s panics: %v", what, api, p), exp
+			}
+			if capped {
+				return false, what + ": " + api + " does not terminate", exp
+			}
+			if d := vsItemsDiff(items, want); d != "" {
+				return false, fmt.Sprintf("%s: %s; got %s", what, d, vsItemsDesc(items)), exp
+			}
+		}
+		return true, "", ""
+	}
+	// 3. the kept slices joined read back as the list.
+	if ok, obs, exp := readBack("joined MarshalText results", bytes.Join(kept, nil)); !ok {
+		return false, obs, exp
+	}
+	// 4. all records written one after another into one shared buffer.
+	var shared bytes.Buffer
+	for i, s := range recs {
+		var werr error
+		if p := vrCatch(func() { werr = s.Write(&shared) }); p != nil || werr != nil {
+			return false, fmt.Sprintf("record %d: Write to the shared buffer: panic %v, error %v", i, p, werr), "record written"
+		}
+	}
+	if !bytes.Equal(shared.Bytes(), bytes.Join(refs, nil)) {
+		return false, fmt.Sprintf("sequential Write calls into one buffer emitted %q", shared.Bytes()),
+			fmt.Sprintf("the concatenation of what each Write emits into a fresh buffer: %q", bytes.Join(refs, nil))
+	}
+	return readBack("shared buffer", shared.Bytes())
+}
+
+func vsRunMarshalList(in map[string]any) vrResult {
+	var recs []*SAM
+	hasQ := false
+	for _, e := range vrList(in["records"]) {
+		s := vsDecRec(e)
+		if !vsInDomain(s, true) {
+			return vrResult{OK: true, Trivial: true}
+		}
+		hasQ = hasQ || vsHasDquote(s)
+		recs = append(recs, s)
+	}
+	ok, obs, exp := vsCheckMarshalList(recs)
+	if ok {
+		return vrResult{OK: true, Trivial: len(recs) < 2}
+	}
+	sig := "generic"
+	if hasQ {
+		dq := make([]*SAM, len(recs))
+		for i, s := range recs {
+			dq[i] = vsDequote(s)
+		}
+		if ok2, _, _ := vsCheckMarshalList(dq); ok2 {
+			sig = "sam:dquote-in-field"
+		}
+	}
+	return vrResult{Observed: obs, Expected: exp, Signature: sig}
+}
+
+// vsWrittenLen: length of the record's line in the independent rendering.
+func vsWrittenLen(s *SAM) int { return len(strings.Join(vsRenderFields(s), "\t")) + 1 }
+
+// vsMarshalPool: in-domain records of pairwise different written lengths whose
+// lines differ from the first byte on (Qname starts with a different letter).
+func vsMarshalPool() []*SAM {
+	var pool []*SAM
+	add := func(f func(s *SAM)) {
+		s := vsBaseRec()
+		f(s)
+		s.Qname = string(rune('a'+len(pool))) + s.Qname
+		pool = append(pool, s)
+	}
+	add(func(s *SAM) {})
+	add(func(s *SAM) { s.Tags = nil })
+	add(func(s *SAM) { *s = SAM{} })
+	add(func(s *SAM) {
+		for _, p := range vsTextFields(s) {
+			*p = ""
+		}
+	})
+	add(func(s *SAM) { s.Seq, s.Qual = strings.Repeat("ACGTN", 60), strings.Repeat("I#5~!", 60) })
+	add(func(s *SAM) { s.Tags = map[string]any{"XA": byte('!')} })
+	add(func(s *SAM) { s.Tags = map[string]any{"XI": math.MinInt64, "NM": 0} })
+	add(func(s *SAM) { s.Tags = map[string]any{"XF": -2.5e-3} })
+	add(func(s *SAM) { s.Tags = map[string]any{"XZ": "", "XY": "a b \x80"} })
+	add(func(s *SAM) { s.Tags = map[string]any{"XH": []byte{0x1a, 0xe3, 0x01}, "XG": []byte{}} })
+	add(func(s *SAM) { s.Flag, s.Pos, s.Mapq, s.Pnext, s.Tlen = 4095, math.MaxInt64, 255, math.MinInt64, -12345 })
+	add(func(s *SAM) { s.Flag, s.Pos, s.Mapq, s.Pnext, s.Tlen = 0, 0, 0, 0, 0 })
+	add(func(s *SAM) { s.Rname, s.Cigar, s.Rnext = "*", "*", "*" })
+	add(func(s *SAM) {
+		s.Tags = map[string]any{"NM": 3, "AS": -7, "XS": 1.5, "MD": "10A5^AC6", "RG": "grp 1", "XA": byte('~'), "X0": []byte{0xff}, "zz": "z"}
+	})
+	seen := map[int]bool{}
+	for _, s := range pool {
+		for seen[vsWrittenLen(s)] {
+			s.Qname += "_"
+		}
+		seen[vsWrittenLen(s)] = true
+	}
+	return pool
+}
+
+func vsGenMarshalList(g *vrGen) {
+	complete := true
+	emit := func(recs []*SAM) bool {
+		if g.Expired() {
+			complete = false
+			return false
+		}
+		l := make([]any, len(recs))
+		for i, s := range recs {
+			l[i] = vsEncRec(s)
+		}
+		g.Case(map[string]any{"records": l})
+		return true
+	}
+	pool := vsMarshalPool()
+	ok := true
+	for _, a := range pool {
+		for _, b := range pool {
+			ok = ok && emit([]*SAM{a, b})
+		}
+	}
+	up := append([]*SAM{}, pool...)
+	sort.SliceStable(up, func(i, j int) bool { return vsWrittenLen(up[i]) < vsWrittenLen(up[j]) })
+	down := make([]*SAM, len(up))
+	for i, s := range up {
+		down[len(up)-1-i] = s
+	}
+	for _, l := range [][]*SAM{up, down} {
+		for i := 0; i+6 <= len(l); i++ {
+			ok = ok && emit(l[i:i+6])
+		}
+	}
+	g.Exhaustive(complete && ok)
+	r := g.Rand
+	for !g.Expired() {
+		quote := r.Intn(3) == 0
+		l := make([]*SAM, 2+r.Intn(5))
+		sizes := map[int]bool{}
+		for i := range l {
+			for try := 0; ; try++ {
+				l[i] = vsRandRec(r, quote)
+				if r.Intn(2) == 0 { // marker byte in front of the line
+					l[i].Qname = string(rune('a'+i)) + l[i].Qname
+				}
+				if sz := vsWrittenLen(l[i]); !sizes[sz] || try >= 20 {
+					sizes[sz] = true
+					break
+				}
+			}
+		}
+		emit(l)
+	}
 }
 
 // ---------------------------------------------------------------------------
